@@ -23,11 +23,11 @@ theorem C04_monitor (eps : α) (genKeys : List String) (n : Nat) (obs : List (St
         -(g.curMax + eps) ≤ (gcReport genKeys g).1 ∧ (gcReport genKeys g).1 ≤ g.curMax + eps := by
   unfold run at hi hvalid ⊢
   simp only at hi hvalid ⊢
-  obtain ⟨h, e⟩ := runLoop_getElem eps genKeys n obs i hi
+  obtain ⟨h, e⟩ := simLoop_getElem eps genKeys n obs i hi
   refine ⟨h, e, ?_⟩
-  have hok : ((runLoop eps genKeys n obs)[i]'hi).ok = true := by
+  have hok : ((simLoop eps genKeys n obs)[i]'hi).ok = true := by
     rcases hvalid with hv | hv
-    · exact runLoop_ok_before_last eps genKeys n obs i hv
+    · exact simLoop_ok_before_last eps genKeys n obs i hv
     · rw [List.any_eq_false] at hv
       have := hv _ (List.getElem_mem hi)
       simpa using this
@@ -86,7 +86,7 @@ then after `Greedy.step` / `Balanced.step` (allocation pass in id order, surplus
 support, battery pass) it still is.  Without stationary batteries this is unconditional; the
 battery-support case is `C04_greedy_balanced_loop` below (invariant of the vehicle pass). -/
 theorem C04_greedy_balanced_upper (rule : Rule) {B : Type} (ops : BatOps α B) (law : BatLaw ops)
-    (env : StratEnv α) (heps : 0 ≤ env.eps) (w w' : World α B) (cmds : List (String × α))
+    (env : StratEnv α) (heps : 0 ≤ env.eps) (w w' : SWorld α B) (cmds : List (String × α))
     (hb : w.batteries = [])
     (h0 : ∀ g ∈ w.gcs, 0 ≤ g.curMax ∧ g.currentLoad ≤ g.curMax)
     (h : ruleStep rule ops env w = .ok (w', cmds)) :
@@ -112,9 +112,13 @@ theorem C04_greedy_balanced_upper (rule : Rule) {B : Type} (ops : BatOps α B) (
         -- vehicle pass
         have hinv0 : LoopInv (fun _ => (0 : α)) (resetStations w) (w.gcs.map (fun g => (g.id, (0 : α)))) := by
           intro g hg
+          have hall : ∀ kv ∈ w.gcs.map (fun g => (g.id, (0 : α))), kv.2 = 0 := by
+            intro kv hkv
+            simp only [List.mem_map] at hkv
+            obtain ⟨x, _, rfl⟩ := hkv
+            rfl
           have hz : availOf (w.gcs.map (fun g => (g.id, (0 : α)))) g.id = 0 :=
-            alGet_zero_of_all_zero _ (by intro kv hkv; simp only [List.mem_map] at hkv
-                                         obtain ⟨x, _, rfl⟩ := hkv; rfl) _
+            sdGet_zero_of_all_zero _ hall _
           rw [hz]
           simp only [resetStations_gcs] at hg
           exact ⟨by simpa using (h0 g hg).2, le_refl _, le_refl _⟩
@@ -131,7 +135,7 @@ theorem C04_greedy_balanced_upper (rule : Rule) {B : Type} (ops : BatOps α B) (
         have hcm1 : ∀ g ∈ w1.gcs, 0 ≤ g.curMax := by
           -- the pass only replaces connectors by `addLoad` results, which keep `curMax`;
           -- proved by a second, simpler invariant
-          have key : ∀ (ids : List String) (st st' : World α B × List (String × α) × List (String × α)),
+          have key : ∀ (ids : List String) (st st' : SWorld α B × List (String × α) × List (String × α)),
               (∀ g ∈ st.1.gcs, 0 ≤ g.curMax) →
               ids.foldlM (allocVehicle rule ops env) st = .ok st' → ∀ g ∈ st'.1.gcs, 0 ≤ g.curMax := by
             intro ids
@@ -188,7 +192,7 @@ theorem C04_greedy_balanced_upper (rule : Rule) {B : Type} (ops : BatOps α B) (
 power `A0 − remaining`): a connector exceeds its limit at most by the support reserved so far. -/
 theorem C04_greedy_balanced_loop (rule : Rule) {B : Type} (ops : BatOps α B) (law : BatLaw ops)
     (env : StratEnv α) (A0 : String → α) (ids : List String)
-    (st st' : World α B × List (String × α) × List (String × α))
+    (st st' : SWorld α B × List (String × α) × List (String × α))
     (hinv : LoopInv A0 st.1 st.2.2)
     (h : ids.foldlM (allocVehicle rule ops env) st = .ok st') : LoopInv A0 st'.1 st'.2.2 :=
   allocFold_inv rule ops law env A0 ids st st' hinv h
